@@ -242,6 +242,32 @@ def final_operation_cases():
         exp = [("Word", "w1", ["a", "b"]), ("Phrase", '"p"', ["a", "b"]), ("Word", "w2", ["c"]), ("Word", "lo", []), ("Word", "hi", []),
                ("Phrase", '"q"', [])]
         return [("C07-N/visit/every-term-and-phrase-checked-once-with-the-accumulated-field-path", got == exp)]
+    def run_specs(cx):
+        """the declared sets of a checker / builder are a function of the specs it was given: same-looking specs with different
+        contents in one process, and no module / class state written by the helpers"""
+        from vfkit import frame
+        import luqum.utils as U
+        from luqum.elasticsearch import ElasticsearchQueryBuilder as B
+        out = []
+        snap = frame.snapshot()
+        specs = [({"o": ["x"]}, {"o.x"}), ({"o": ["y"]}, {"o.y"}), ({"o": {"x": None, "p": ["q"]}}, {"o.x", "o.p.q"}), (["o.x"], {"o.x"}), (["o.z"], {"o.z"}),
+                 ({"o": ["x"], "t": ["k"]}, {"o.x", "t.k"}), ({"t": ["raw"]}, {"t.raw"}), ([], set()), (("o.x", "o.y"), {"o.x", "o.y"})]
+        for rnd in (1, 2):
+            for spec, want in specs:
+                out.append(("C07-S/normalize_object_fields_specs/is-a-function-of-the-spec", set(U.normalize_object_fields_specs(spec)) == want))
+                out.append(("C07-S/flatten_nested_fields_specs/is-a-function-of-the-spec", set(U.flatten_nested_fields_specs(spec)) == want))
+                chk = CK.CheckNestedFields({"n": ["x"]}, object_fields=spec, sub_fields=specs[(specs.index((spec, want)) + 3) % len(specs)][0])
+                out.append(("C07-S/CheckNestedFields/declared-sets-are-those-of-its-own-specs",
+                            set(chk.object_fields) == want and set(chk.sub_fields) == specs[(specs.index((spec, want)) + 3) % len(specs)][1]
+                            and set(chk.object_prefixes) == {k.rsplit(".", 1)[0] for k in want if "." in k}))
+                b = B(nested_fields=spec, object_fields=spec)
+                out.append(("C07-S/builder/declared-sets-are-those-of-its-own-specs",
+                            set(b.object_fields) == want and set(b.nested_fields) == set(U.normalize_nested_fields_specs(spec))))
+        out.append(("C07-S/helpers-write-no-module-or-class-state", not frame.diff(snap, frame.snapshot())))
+        return out
+    cases.append(core.Case("C07-S/specs", run_specs, functions=["luqum.utils.normalize_object_fields_specs", "luqum.utils.flatten_nested_fields_specs",
+                                                                "luqum.check.CheckNestedFields.__init__",
+                                                                "luqum.elasticsearch.visitor.ElasticsearchQueryBuilder.__init__"]))
     cases.append(core.Case("C07-N/visit", run_visit, functions=["luqum.check.CheckNestedFields.visit_search_field",
                                                                 "luqum.check.CheckNestedFields.visit_term",
                                                                 "luqum.check.CheckNestedFields.visit_phrase"]))
